@@ -38,6 +38,7 @@ func init() {
 			{ID: "C20.R15", Text: "the concurrent checkpoint read returns: it waits for exactly its workers and every worker signals on every path (same rule as C02.R14)", Run: workersSignal("couchbase.cbMetadata).Load")},
 			{ID: "C20.R16", Text: "no worker blocks for ever on reporting: a channel that goroutines started in a loop send on, and that is read only after waiting for them, has room for every one of them (capacity = length of the list the workers are started over)", Run: workerResultChannels},
 			{ID: "C20.R17", Text: "the deadline of an operation is the timeout that was configured: defaulting never rewrites a configured duration — every default store is guarded by the zero test of its own field, no store through a pointer into the configuration (same rule as C17.R1)", Run: c17r1},
+			{ID: "C20.R18", Text: "no outcome is invented by swallowing an error: module-wide error discipline (same rule as C15.R26)", Run: errorDiscipline},
 			{ID: "C20.R4", Text: "a deadline exists for every operation (own deadline from time.Now, or a deadline-bearing context at every call site)", Run: c20r4},
 		},
 	})
